@@ -314,3 +314,25 @@ class CFG:
                     prev[m.id] = n.id
                     queue.append(m)
         return None
+
+
+def enumerate_paths(cfg: CFG, start=None, max_paths=20000, loop_visits=2):
+    """All entry->(exit|raise) paths; every node may be visited at most `loop_visits` times per path."""
+    start = start or cfg.entry
+    out = []
+    stack = [(start, [start], {start.id: 1})]
+    while stack:
+        n, path, cnt = stack.pop()
+        if n is cfg.exit or n is cfg.raise_exit:
+            out.append(path)
+            if len(out) > max_paths:
+                raise OverflowError("too many paths")
+            continue
+        for m, lab in n.succ:
+            c = cnt.get(m.id, 0)
+            if c >= loop_visits:
+                continue
+            c2 = dict(cnt)
+            c2[m.id] = c + 1
+            stack.append((m, path + [m], c2))
+    return out
